@@ -444,7 +444,26 @@ def grid_points(path, limit, seed=0):
     return points
 
 
-def grid_phase(shape, path, prop, module, limit, seed, out):
+def replay_counterexample(prop, module, shape, res, ob, replayed):
+    """Replay a counterexample in a fresh interpreter. One confirmed replay per obligation is enough
+    (further paths violating the same obligation are recorded but not replayed again); at most three
+    attempts are made for an obligation whose counterexamples do not reproduce."""
+    state = replayed.setdefault(res["id"], {"confirmed": None, "tries": 0})
+    if state["confirmed"] is not None:
+        res.update(replay=state["confirmed"], replay_exit=1, confirmed=True, replay_tail="same obligation already confirmed on another path")
+        return
+    if state["tries"] >= 3:
+        res.update(replay=None, replay_exit=0, confirmed=False, replay_tail="not replayed: three earlier counterexamples of this obligation did not reproduce")
+        return
+    state["tries"] += 1
+    rp = write_replay(prop, module, shape, res, ob)
+    code, tail = run_replay(rp)
+    res.update(replay=rp, replay_exit=code, replay_tail=tail[-600:], confirmed=code == 1)
+    if code == 1:
+        state["confirmed"] = rp
+
+
+def grid_phase(shape, path, prop, module, limit, seed, out, replayed):
     """Decide every obligation again on builds made by the unpatched API at concrete points."""
     for pt in grid_points(path, limit, seed):
         try:
@@ -474,9 +493,7 @@ def grid_phase(shape, path, prop, module, limit, seed, out):
                 res["vacuous_at_point"] = True
             if res["status"] == "sat":
                 res["witness"]["params"] = dict(pt)
-                rp = write_replay(prop, module, shape, res, ob)
-                code, tail = run_replay(rp)
-                res.update(replay=rp, replay_exit=code, replay_tail=tail[-600:], confirmed=code == 1)
+                replay_counterexample(prop, module, shape, res, ob, replayed)
             out["results"].append(res)
 
 
@@ -496,7 +513,8 @@ def run_shape(args):
         out["functions"] = sorted(_PROFILE)
         out["paths"] = len(paths)
         out["explorer_queries"] = ex.queries
-        out["path_conditions"] = [p.describe() for p in paths]
+        out["path_conditions"] = [p.describe() for p in paths][:50]
+        replayed = {}
         for path in paths:
             if getattr(path, "aborted", False):
                 continue
@@ -529,16 +547,11 @@ def run_shape(args):
                     res = {"id": ob.id, "kind": ob.kind, "status": "error", "path": path.tag(),
                            "note": traceback.format_exc()[-800:]}
                 if res["status"] == "sat":
-                    rp = write_replay(prop, module, shape, res, ob)
-                    code, tail = run_replay(rp)
-                    res["replay"] = rp
-                    res["replay_exit"] = code
-                    res["replay_tail"] = tail[-600:]
-                    res["confirmed"] = code == 1
+                    replay_counterexample(prop, module, shape, res, ob, replayed)
                 out["results"].append(res)
             if path.exc is None and getattr(shape, "grid", True):
                 limit = getattr(shape, "grid_limit", None) or (6 if tier == "quick" else 24)
-                grid_phase(shape, path, prop, module, limit, int(os.environ.get("VERIF_SEED", "0") or 0), out)
+                grid_phase(shape, path, prop, module, limit, int(os.environ.get("VERIF_SEED", "0") or 0), out, replayed)
         out["stats"] = dict(formula.STATS)
     except Exception:
         out["error"] = traceback.format_exc()[-1500:]
